@@ -44,7 +44,14 @@ this prelude, on every run. What is *assumed* about Go here (the translator's se
 * an `interface{}` is an `AnyV` (nil, a `[]byte`, a `string`, or some other dynamic type); `json.Unmarshal(data, &s)` into
   a string is the parameter `jsonDecode` of the translated function (what it decodes, `none` = an error);
 * an `*http.Request` is an `HttpReq` (body as `BodyV`, `GetBody` as the answers of its calls, header map with canonical
-  keys); of a struct listed under `prune` only the fields the translated functions select are declared.
+  keys); of a struct listed under `prune` only the fields the translated functions select are declared;
+* a channel is a number (its identity); `ch <- v` and `close(ch)` append a `ChanOp` to the ghost field `chlog` of the
+  struct listed under `chanLog` — what is sent and closed, in order; blocking, buffering and the panic of a second close
+  are not modelled (the theorems count the closes instead); a Go map is an association list with at most one entry per
+  key (`mapGet` / `mapSet` / `mapDel`), `range` over it takes the visiting order as a parameter (any list of keys; a key
+  absent at its turn is skipped, as Go skips entries deleted during the iteration; entries *added* during an iteration
+  are out of scope — the translated loops add none); a `regions` entry makes the first `range` statement of a function
+  a definition of its own, its free variables its parameters.
 -/
 namespace GoSSE.GoRT
 open GoSSE
@@ -217,6 +224,19 @@ def httpGetBody (r : HttpReq) : GoM (BodyV × Option String × HttpReq) :=
   match r.GetBody with
   | none => throw (.panic "invalid memory address or nil pointer dereference")
   | some f => pure ((f r.gbCalls).1, (f r.gbCalls).2, { r with gbCalls := r.gbCalls + 1 })
+
+/-- What a goroutine did to channels (identified by numbers), in order: the translated code appends to a log instead of
+communicating; whether a send blocks or a close panics is a question about the log and the channels' state, asked
+by the theorems. `ε` is what is sent. -/
+inductive ChanOp (ε : Type)
+  | send (ch : Nat) (v : ε)
+  | close (ch : Nat)
+deriving DecidableEq, Repr
+
+/-- a Go map as an association list (at most one entry per key is an invariant of the functions below) -/
+def mapGet {κ ν : Type} [BEq κ] (m : List (κ × ν)) (k : κ) : Option ν := (m.find? fun e => e.1 == k).map (·.2)
+def mapDel {κ ν : Type} [BEq κ] (m : List (κ × ν)) (k : κ) : List (κ × ν) := m.filter fun e => !(e.1 == k)
+def mapSet {κ ν : Type} [BEq κ] (m : List (κ × ν)) (k : κ) (v : ν) : List (κ × ν) := m.map fun e => if e.1 == k then (k, v) else e
 
 /-- an `http.ResponseWriter` of whatever dynamic type: an identity the translated code only hands on -/
 abbrev HttpRW := Nat
